@@ -6,7 +6,7 @@ import io
 import sys
 
 from gunicorn.http.errors import (NoMoreData, ChunkMissingTerminator,
-                                  InvalidChunkSize)
+                                  InvalidChunkSize, LimitRequestHeaders)
 
 
 class ChunkedReader:
@@ -44,6 +44,9 @@ class ChunkedReader:
         idx = buf.getvalue().find(b"\r\n\r\n")
         done = buf.getvalue()[:2] == b"\r\n"
         while idx < 0 and not done:
+            # same cap as for the header block: never buffer without limit
+            if buf.tell() > self.req.max_buffer_headers:
+                raise LimitRequestHeaders("max buffer trailers")
             self.get_data(unreader, buf)
             idx = buf.getvalue().find(b"\r\n\r\n")
             done = buf.getvalue()[:2] == b"\r\n"
